@@ -51,7 +51,7 @@ macro_rules! sym_logic {
             fn ite(p: &Id, a: Self, b: Self) -> Self { $T(t_ite(*p, a.0, b.0)) }
             fn var(name: &str, lo: f64, hi: f64) -> Self {
                 let id = mk(Node::Var(name.to_string()));
-                with(|a| a.vars.push((name.to_string(), id, lo, hi)));
+                with(|a| { if !a.vars.iter().any(|(_, i, _, _)| *i == id) { a.vars.push((name.to_string(), id, lo, hi)); } });
                 $T(id)
             }
             fn assume(p: Id) { with(|a| a.assumes.push(p)); }
